@@ -142,6 +142,30 @@ sys.exit(1 if bad else 0)
     return rp
 
 
+def _noise_replay(kind, kw, ins, burn_in):
+    def rp(model):
+        src = replay_prologue(kind, kw, ins, model)
+        src += f"""
+from leaspy.models.mcmc_saem_compatible import McmcSaemCompatibleModel
+S = McmcSaemCompatibleModel.compute_sufficient_statistics.__func__(type(m), s)
+res = (s['y'].value - s['model']) ** 2
+obs = s['y'].weight.bool()
+res = torch.where(obs, res, torch.zeros_like(res))
+scalar = tuple(m.dag['noise_std'].shape) == (1,)
+ref = (res.sum() / obs.sum()).sqrt().reshape(1) if scalar else (res.sum(dim=(0, 1)) / obs.sum(dim=(0, 1))).sqrt()
+try:
+    type(m).update_parameters(s, S, burn_in={burn_in!r})
+except Exception as e:
+    print('refused:', str(e)[:60]); sys.exit(0)
+got = s['noise_std'].double().reshape(-1)
+print('noise_std after the update:', got, ' RMS residual over observed entries:', ref)
+sys.exit(0 if torch.allclose(got, ref.double().reshape(-1), rtol=1e-4, atol=1e-6) else 1)
+"""
+        return src
+
+    return rp
+
+
 def fill_task(kind, kw, theory, n_ind=2, n_vis=2, pad=0):
     task = f"{'fill' if not pad else 'padding'}[{cfg_name(kind, kw)},{theory},n={n_ind},v={n_vis}{'+%d' % pad if pad else ''}]"
 
@@ -241,6 +265,24 @@ def fill_task(kind, kw, theory, n_ind=2, n_vis=2, pad=0):
                             if scalar or kk == k:
                                 cnt = cnt + z3.If(mk[i, j, kk], one, zero)
                 rec.prove(f"n_obs[{k}]", nobs[k] == cnt, what="observation count is not the number of true mask bits")
+            if theory == "R" and not pad:
+                # 'noise estimates use observed entries only': updated noise^2 == sum over observed entries of (y - model)^2 / their number
+                M, yv = A["model"][0], ins["y"].sym
+                zero = T.real_val(0)
+                for b in (True, False):
+                    nm = f"update[burn_in={b}]:noise_std"
+                    if nm not in A:
+                        continue
+                    got = A[nm][0].reshape(-1)
+                    for k in range(len(got)):
+                        num, cnt = zero, zero
+                        for i, j, kk in np.ndindex(n_ind, n_vis, d):
+                            if scalar or kk == k:
+                                r_ = yv[i, j, kk] - M[i, j, kk]
+                                num = num + z3.If(mk[i, j, kk], r_ * r_, zero)
+                                cnt = cnt + z3.If(mk[i, j, kk], T.real_val(1), zero)
+                        rec.prove(f"{nm}[{k}]:observed-only", z3.And(got[k] >= 0, got[k] * got[k] * cnt == num), replay=_noise_replay(kind, kw, ins, b), key="C06:noise-observed-only",
+                                  timeout_ms=60000, what="the noise estimate is not the root-mean-square residual over the observed entries only")
             rec.twin("ctx", timeout_ms=30000) if theory == "R" else None
             rec.end_path(c)
         rec.sample({"model": cfg_name(kind, kw), "theory": theory, "pad": pad, "mask": "symbolic", "fill": "independent symbols under the mask" + (" incl. NaN/inf" if theory == "F" else "")})
